@@ -12,7 +12,7 @@ use crypto::signatures::ed25519 as ed;
 use futures::executor::block_on;
 use identity_did::CoreDID;
 use identity_eddsa_verifier::EdDSAJwsVerifier;
-use identity_jose::jwk::{Jwk, JwkParamsEc, JwkParamsOct, JwkParamsOkp, JwkParamsRsa, JwkType};
+use identity_jose::jwk::{Jwk, JwkParams, JwkParamsEc, JwkParamsOct, JwkParamsOkp, JwkParamsRsa, JwkType};
 use identity_jose::jws::{JwsAlgorithm, JwsVerifier, VerificationInput};
 use identity_storage::{JwkGenOutput, JwkStorage, KeyId, KeyIdStorage, KeyType, MethodDigest};
 use identity_stronghold::{StrongholdStorage, ED25519_KEY_TYPE};
@@ -113,6 +113,38 @@ fn ec(crv: &str, x: &str, y: &str, d: Option<&str>, alg: Option<&str>) -> Jwk {
   j
 }
 
+/// A JWK that declares `kty` but carries the parameters `params` of whatever family (the public API allows it through
+/// `set_params_unchecked` and `params_mut`; `set_kty` would reset the parameters).
+fn declared(kty: JwkType, params: impl Into<JwkParams>, alg: Option<&str>, via_params_mut: bool) -> Jwk {
+  let mut j = Jwk::new(kty);
+  if via_params_mut {
+    *j.params_mut() = params.into();
+  } else {
+    j.set_params_unchecked(params);
+  }
+  if let Some(a) = alg {
+    j.set_alg(a);
+  }
+  j
+}
+
+fn okp_params(crv: &str, x: &str, d: Option<&str>) -> JwkParamsOkp {
+  let mut p = JwkParamsOkp::new();
+  p.crv = crv.to_string();
+  p.x = x.to_string();
+  p.d = d.map(|s| s.to_string());
+  p
+}
+
+fn family(k: JwkType) -> &'static str {
+  match k {
+    JwkType::Ec => "EC",
+    JwkType::Rsa => "RSA",
+    JwkType::Oct => "oct",
+    JwkType::Okp => "OKP",
+  }
+}
+
 /// Harness-made Ed25519 JWKs for key `label`.
 fn ed_parts(label: u64) -> (String, String, [u8; 32]) {
   let k = Key::ed(label);
@@ -186,6 +218,12 @@ struct Hist<'a> {
   /// Miri: keep the number of (interpreted, very slow) curve operations minimal
   tiny: bool,
   seed_info: Value,
+  /// `kid` values carried by JWKs that were inserted earlier in this history
+  kid_pool: Vec<String>,
+  /// inserted harness keys: (index into `keys`, x, d, kid the JWK carried) — for re-imports after a delete
+  imported: Vec<(usize, String, String, Option<String>)>,
+  /// model and store diverged through a reported violation: the history ends here
+  broken: bool,
 }
 
 impl<'a> Hist<'a> {
@@ -427,32 +465,96 @@ impl<'a> Hist<'a> {
 
   // ------------------------------------------------------------------ insert
   fn op_insert(&mut self) {
-    let label = self.label_base + self.next();
-    let (x, d, pk) = ed_parts(label);
-    let with_kid = self.rng.bool();
+    // which key: a new one, or the re-import of a harness key whose earlier key id has been deleted since
+    let dead_imports: Vec<usize> = (0..self.imported.len()).filter(|&i| !self.keys[self.imported[i].0].alive).collect();
+    let reimport: Option<usize> = if !dead_imports.is_empty() && self.rng.chance(1, 4) { Some(*self.rng.pick(&dead_imports)) } else { None };
+    let (x, d, pk, what): (String, String, [u8; 32], String) = match reimport {
+      Some(i) => {
+        let (k, x, d, _) = self.imported[i].clone();
+        (x, d, self.keys[k].pk, format!("private Ed25519 of deleted key#{} again", k))
+      }
+      None => {
+        let label = self.label_base + self.next();
+        let (x, d, pk) = ed_parts(label);
+        (x, d, pk, format!("private Ed25519 label {}", label))
+      }
+    };
+    // the `kid` member is the caller's business: absent, the thumbprint, a value other inserted JWKs carry
+    // as well, a key id the store handed out earlier (live or deleted), or some fixed text
+    let (kid, kid_kind): (Option<String>, &'static str) = match (self.rng.below(12), reimport) {
+      (0..=3, Some(i)) if self.imported[i].3.is_some() => (self.imported[i].3.clone(), "same-as-before"),
+      (0 | 1, _) => (None, "none"),
+      (2 | 3, _) => (Some(ed_thumbprint(&x)), "thumbprint"),
+      (4 | 5, _) if !self.kid_pool.is_empty() => (Some(self.rng.pick(&self.kid_pool).clone()), "shared"),
+      (6 | 7 | 8, _) if !self.keys.is_empty() => {
+        let k = self.rng.usize(self.keys.len());
+        (Some(self.keys[k].id.clone()), if self.keys[k].alive { "live-key-id" } else { "deleted-key-id" })
+      }
+      (9, _) => (Some(self.rng.pick(&["shared-kid", "", "non-existent-id", "key-1"]).to_string()), "fixed"),
+      (10, _) => (None, "none"),
+      _ => (Some(ed_thumbprint(&x)), "thumbprint"),
+    };
     let mut jwk = okp("Ed25519", &x, Some(&d), Some("EdDSA"));
-    if with_kid {
-      jwk.set_kid(ed_thumbprint(&x));
+    if let Some(k) = &kid {
+      jwk.set_kid(k.clone());
     }
+    let kid_seen_before = match &kid {
+      Some(k) => self.kid_pool.contains(k) || self.issued.contains(k),
+      None => false,
+    };
     let r = call(self.store.insert(jwk));
     match r {
       Err(p) => self.panic("insert", &p),
       Ok(Err(e)) => {
-        self.log.push(format!("insert(private Ed25519 label {}, alg EdDSA) -> Err({})", label, e));
-        self.viol("insert-rejects-valid", &format!("insert of a fully private Ed25519 JWK with alg EdDSA failed: {}", e));
+        self.log.push(format!("insert({}, alg EdDSA, kid {:?}) -> Err({})", what, kid, e));
+        self.viol("insert-rejects-valid", &format!("insert of a fully private Ed25519 JWK with alg EdDSA (kid: {}) failed: {}", kid_kind, e));
       }
       Ok(Ok(id)) => {
         let id = id.as_str().to_string();
-        self.log.push(format!("insert(private Ed25519 label {}, alg EdDSA) -> key#{} id={}", label, self.keys.len(), id));
+        self.log.push(format!("insert({}, alg EdDSA, kid {:?}) -> key#{} id={}", what, kid, self.keys.len(), id));
         self.rep.inc("sh_insert_ok");
         self.rep.inc("sh_oracle_checks");
-        self.class("insert", "ok", "-");
-        if self.issued.contains(&id) {
-          self.viol("insert-returns-used-key-id", &format!("insert returned key id {:?} already issued for a different key", id));
+        if kid_seen_before {
+          self.rep.inc("sh_insert_ok_kid_seen_before");
         }
+        if reimport.is_some() {
+          self.rep.inc("sh_insert_ok_reimport_after_delete");
+        }
+        self.class("insert", "ok", kid_kind);
+        let used: Vec<usize> = (0..self.keys.len()).filter(|&j| self.keys[j].id == id).collect();
+        let used_before = self.issued.contains(&id);
         self.issued.insert(id.clone());
-        self.keys.push(KeyRec { id, pk, pub_jwk: okp("Ed25519", &x, None, Some("EdDSA")), alive: true, signable: true, origin: "inserted" });
+        if let Some(k) = &kid {
+          if !self.kid_pool.contains(k) {
+            self.kid_pool.push(k.clone());
+          }
+        }
+        self.keys.push(KeyRec { id: id.clone(), pk, pub_jwk: okp("Ed25519", &x, None, Some("EdDSA")), alive: true, signable: true, origin: "inserted" });
         let i = self.keys.len() - 1;
+        self.imported.push((i, x.clone(), d.clone(), kid.clone()));
+        if used_before {
+          // Two keys behind one key id: the id cannot keep signing for the first key and for the new one, and if the
+          // first one was deleted, a deleted key id is back. Observe what the statement says about the OLDER holder.
+          self.viol(
+            "insert-returns-used-key-id",
+            &format!("insert (kid: {}) returned key id {:?} which this store had already issued for another stored/deleted key", kid_kind, id),
+          );
+          for j in used {
+            if !self.keys[j].alive {
+              self.expect_exists(j, "after a later insert returned the same key id");
+            } else if self.keys[j].signable && self.keys[j].pk != pk {
+              let msg = self.message();
+              let pkj = self.keys[j].pub_jwk.clone();
+              match call(self.store.sign(&KeyId::new(id.clone()), &msg, &pkj)) {
+                Err(p) => self.panic("sign", &p),
+                Ok(Err(e)) => self.viol("sign-fails-on-stored-key", &format!("sign with stored key#{} failed after a later insert returned its key id: {}", j, e)),
+                Ok(Ok(sig)) => self.judge_signature(j, &msg, &sig, "after a later insert returned the same key id"),
+              }
+            }
+          }
+          self.broken = true;
+          return;
+        }
         self.expect_exists(i, "after insert");
       }
     }
@@ -462,7 +564,7 @@ impl<'a> Hist<'a> {
     let label = self.label_base + self.next();
     let (x, d, _) = ed_parts(label);
     // (jwk, description, signature-if-accepted or "" for latitude)
-    let (jwk, what, sig): (Jwk, String, &'static str) = match self.rng.below(14) {
+    let (jwk, what, sig): (Jwk, String, &'static str) = match self.rng.below(17) {
       0 | 1 => (okp("Ed25519", &x, None, Some("EdDSA")), "public-only Ed25519 JWK, alg EdDSA".into(), "insert-accepts-public-only"),
       2 => (okp("Ed25519", &x, Some(&d), None), "private Ed25519 JWK without alg".into(), "insert-accepts-missing-alg"),
       3 | 4 => {
@@ -497,12 +599,52 @@ impl<'a> Hist<'a> {
         j.set_alg(*self.rng.pick(&["EdDSA", "RS256"]));
         (j, "RSA JWK (only d set)".into(), "insert-accepts-wrong-key-type")
       }
-      10 => {
-        // `kty` disagreeing with the parameter family
-        let mut j = okp("Ed25519", &x, Some(&d), Some("EdDSA"));
-        let k = *self.rng.pick(&[JwkType::Ec, JwkType::Rsa, JwkType::Oct]);
-        j.set_kty(k);
-        (j, format!("Ed25519 OKP params under kty {}", k), "insert-accepts-wrong-key-type")
+      10 | 14 | 15 | 16 => {
+        // declared `kty` disagreeing with the family of the parameters the JWK carries. Every JWS algorithm belongs to
+        // one key type, so whatever `alg` says it is incompatible with the declared type or with the key material.
+        let via_mut = self.rng.bool();
+        let (j, what): (Jwk, String) = match self.rng.below(6) {
+          0 | 1 | 2 => {
+            // a complete private Ed25519 parameter set under another declared type
+            let k = *self.rng.pick(&[JwkType::Ec, JwkType::Rsa, JwkType::Oct]);
+            let a = match (self.rng.below(4), k) {
+              (0, JwkType::Ec) => "ES256",
+              (0, JwkType::Rsa) => "RS256",
+              (0, _) => "HS256",
+              _ => "EdDSA",
+            };
+            (declared(k, okp_params("Ed25519", &x, Some(&d)), Some(a), via_mut), format!("private Ed25519 OKP params under declared kty {}, alg {}", family(k), a))
+          }
+          3 => {
+            // declared OKP, EC key material
+            let (alg, crv, name) = if self.rng.bool() { (Alg::ES256, "P-256", "ES256") } else { (Alg::ES256K, "secp256k1", "ES256K") };
+            let (ex, ey, ed_) = ec_parts(alg, label);
+            let mut p = JwkParamsEc::new();
+            p.crv = if self.rng.chance(1, 3) { "BLS12381G2".to_string() } else { crv.to_string() };
+            p.x = ex;
+            p.y = ey;
+            p.d = Some(ed_);
+            let a = *self.rng.pick(&["EdDSA", name]);
+            let what = format!("private EC {} params under declared kty OKP, alg {}", p.crv, a);
+            (declared(JwkType::Okp, p, Some(a), via_mut), what)
+          }
+          4 => {
+            let a = *self.rng.pick(&["EdDSA", "HS256"]);
+            let k = *self.rng.pick(&[JwkType::Okp, JwkType::Ec]);
+            (declared(k, JwkParamsOct { k: d.clone() }, Some(a), via_mut), format!("oct params under declared kty {}, alg {}", family(k), a))
+          }
+          _ => {
+            let mut p = JwkParamsRsa::new();
+            p.n = x.clone();
+            p.e = "AQAB".into();
+            p.d = Some(d.clone());
+            let a = *self.rng.pick(&["EdDSA", "RS256"]);
+            let k = *self.rng.pick(&[JwkType::Okp, JwkType::Ec]);
+            (declared(k, p, Some(a), via_mut), format!("RSA params under declared kty {}, alg {}", family(k), a))
+          }
+        };
+        self.rep.inc("sh_insert_kty_mismatch_cases");
+        (j, what, "insert-accepts-kty-params-mismatch")
       }
       11 => {
         // BLS curve on an EC JWK: no JWS algorithm is compatible with it
@@ -526,6 +668,9 @@ impl<'a> Hist<'a> {
       Ok(Err(e)) => {
         self.log.push(format!("insert({}) -> Err({})", what, e));
         self.rep.inc("sh_insert_rejected");
+        if sig == "insert-accepts-kty-params-mismatch" {
+          self.rep.inc("sh_insert_kty_mismatch_rejected");
+        }
         self.class("insert-invalid", "err", if sig.is_empty() { "lat" } else { &sig[15..] });
         self.check_count("rejected");
       }
@@ -667,9 +812,8 @@ impl<'a> Hist<'a> {
         (okp(crv, &own_x, None, Some("EdDSA")), format!("own x under crv {:?}", crv))
       }
       7 => {
-        let mut j = okp("Ed25519", &own_x, None, Some("EdDSA"));
-        j.set_kty(JwkType::Ec);
-        (j, "own OKP params under kty EC".into())
+        let k = *self.rng.pick(&[JwkType::Ec, JwkType::Rsa, JwkType::Oct]);
+        (declared(k, okp_params("Ed25519", &own_x, None), Some("EdDSA"), self.rng.bool()), format!("own-OKP-params-under-declared-kty-{}", family(k)))
       }
       _ => {
         let (x2, _, _) = ed_parts(self.label_base + 900_000_000 + self.ctr);
@@ -1090,14 +1234,24 @@ fn run_history(rep: &mut Report, rng: Rng, hist_no: u64, ops: usize, light: bool
     max_cross: if tiny { 0 } else if light { 2 } else { 64 },
     tiny,
     seed_info: json!({"seed":args.seed,"shard":args.shard,"nshards":args.nshards,"thorough":args.thorough,"history":hist_no}),
+    kid_pool: Vec::new(),
+    imported: Vec::new(),
+    broken: false,
   };
   // every history starts with one key so that sign/delete have a target early on
   h.rep.eval();
   h.op_generate();
   for _ in 0..ops {
+    if h.broken {
+      break;
+    }
     h.step();
   }
-  h.sweep();
+  if h.broken {
+    h.rep.inc("sh_seq_histories_cut_short");
+  } else {
+    h.sweep();
+  }
   let kinds = std::mem::take(&mut h.kinds);
   h.rep.distinct("sh_histories", &kinds);
   h.rep.inc("sh_seq_histories");
@@ -1572,6 +1726,9 @@ impl<'a> Races<'a> {
       max_cross: if self.tiny { 0 } else { 64 },
       tiny: self.tiny,
       seed_info: case.clone(),
+      kid_pool: Vec::new(),
+      imported: Vec::new(),
+      broken: false,
     };
     let Some(shared_rec) = h.judge_generated(&shared, "EdDSA") else { return };
     h.issued.insert(shared_rec.id.clone());
